@@ -698,6 +698,7 @@ class _Run:
                     continue
                 if uses_cache:
                     self.cache_state = "warm" if not self.poisoned else "poisoned"
+                    self._note_entries()
                 want = expected_fingerprint(sp, with_defaults=res["full"])
                 got = res["fp"]
                 if not res["full"]:
@@ -758,13 +759,27 @@ class _Run:
                 out[f] = os.path.getsize(p)
         return out
 
+    def _note_entries(self):
+        now = self.list_cache()
+        order = [e for e in getattr(self, "entry_order", []) if e + ".pickle" in now]
+        fresh = sorted((f[:-7] for f in now if f.endswith(".pickle") and f[:-7] not in order),
+                       key=lambda st: (now[st + ".pickle"], now.get(st + ".json", 0)))
+        self.entry_order = order + fresh
+
     def cache_changed(self, snapshot):
         return self.list_cache() != (snapshot or {})
 
     def tear(self, step):
         """Rewrite one cache entry into a state a crash during save can leave (json is written
         first, the pickle second, nothing is synced or renamed)."""
-        entries = sorted(f[:-7] for f in self.list_cache() if f.endswith(".pickle"))
+        # The names of the entries are hashes that include the (random) scratch path: pick the victim by
+        # a path-independent order - first appearance, then size - so that a seed is one execution.
+        now = self.list_cache()
+        self.entry_order = [e for e in getattr(self, "entry_order", []) if e + ".pickle" in now]
+        fresh = sorted((f[:-7] for f in now if f.endswith(".pickle") and f[:-7] not in self.entry_order),
+                       key=lambda st: (now[st + ".pickle"], now.get(st + ".json", 0)))
+        self.entry_order.extend(fresh)
+        entries = self.entry_order
         if not entries:
             return
         stem = entries[step["which"] % len(entries)]
